@@ -9,8 +9,9 @@
 EXTENDS Clock, Bitwise, TLC, IOUtils, Json, Sequences
 
 Recs == ndJsonDeserialize(IOEnv.TRACE)
-VARIABLES k, l
-Init == k = Zero /\ l = 1
+VARIABLES k, d, l            \* d: the DMA engine's progress as last seen ([dact, doff])
+NoDma == [dact |-> 0, doff |-> 0]
+Init == k = Zero /\ d = NoDma /\ l = 1
 IsEvent(e) == l <= Len(Recs) /\ Recs[l].ev = e /\ l' = l + 1
 Frame == 70224
 
@@ -18,8 +19,21 @@ Frame == 70224
 Sampled(o) == ~(o.ime = "Enabled" /\ (o.iflag & o.ie) # 0)
 Delivered(rec, n) == rec.clk[1] = n /\ rec.clk[2] = n /\ rec.clk[3] = n
 
-NewHistory == IsEvent("init") /\ k' = Zero
-Passive == l <= Len(Recs) /\ Recs[l].ev \in {"bw", "press", "release", "br", "bf", "tick"} /\ l' = l + 1 /\ UNCHANGED k
+\* the time of a step reaches the DMA engine too: a transfer in flight (or started by a write to 0xFF46 during the step,
+\* which restarts it from offset 0) has advanced by exactly the machine cycles delivered, one byte each, up to 160
+Seen(rec) == [dact |-> rec.o.dact, doff |-> rec.o.doff]
+DmaKeptPace(rec) ==
+  LET n == rec.clk[3] \div 4
+      restarted == \E i \in 1..Len(rec.wr) : rec.wr[i][1] = 65350
+      off0 == IF restarted THEN 0 ELSE d.doff
+      act0 == restarted \/ d.dact = 1
+      c == IF 160 - off0 < n THEN 160 - off0 ELSE n
+  IN IF ~act0 THEN rec.o.dact = 0
+     ELSE IF off0 + c < 160 THEN rec.o.dact = 1 /\ rec.o.doff = off0 + c ELSE rec.o.dact = 0
+
+NewHistory == IsEvent("init") /\ k' = Zero /\ d' = NoDma
+Passive == /\ l <= Len(Recs) /\ Recs[l].ev \in {"bw", "press", "release", "br", "bf", "tick"} /\ l' = l + 1 /\ UNCHANGED k
+           /\ d' = IF "o" \in DOMAIN Recs[l] THEN Seen(Recs[l]) ELSE d
 RunningStep ==
   /\ IsEvent("step") /\ Recs[l].k \in {"instr", "block"}
   /\ LET rec == Recs[l]
@@ -30,6 +44,7 @@ RunningStep ==
         /\ rec.o.pend \in {0, 5}                          \* five cycles for a dispatch, delivered next step
         /\ k' = RunStep(k, c, disp) /\ Conserved(k')
         /\ Sampled(rec.o)
+        /\ DmaKeptPace(rec) /\ d' = Seen(rec)
 HaltedStep ==
   /\ IsEvent("step") /\ Recs[l].k = "halt"
   /\ LET rec == Recs[l]
@@ -38,6 +53,7 @@ HaltedStep ==
         /\ rec.o.pend \in {k.pend, k.pend + 5}
         /\ k' = HaltStep(k, disp) /\ Conserved(k')
         /\ Sampled(rec.o)
+        /\ DmaKeptPace(rec) /\ d' = Seen(rec)
 \* stepping to the next frame: ends just after a vertical blanking period, within two frames plus one step
 FrameStep ==
   /\ IsEvent("frame")
@@ -47,8 +63,9 @@ FrameStep ==
      /\ rec.mode # 1 /\ rec.o.q < 144 * 456
      /\ (rec.q0 + rec.clk[2]) % Frame = rec.o.q
      /\ k' = [Zero EXCEPT !.pend = rec.o.pend, !.cpu = rec.o.pend]
+     /\ d' = Seen(rec)
 Next == NewHistory \/ Passive \/ RunningStep \/ HaltedStep \/ FrameStep
-TraceSpec == Init /\ [][Next]_<<k, l>>
+TraceSpec == Init /\ [][Next]_<<k, d, l>>
 
 Matched == TLCGet("stats").diameter - 1
 TraceAccepted ==
